@@ -32,10 +32,24 @@ TRUSTED_BASE = [
 ]
 
 ITEM = {"reply": "SReply %d", "unknown": "SUnknown", "wrong": "SWrong %d", "garbage": "SGarbage", "close": "SClose", "short": "SShort %d"}
-OBS = {"ok": "OOk", "err": "OErr", "foreign": "OForeign", "hang": "OHang", "none": "OHang"}
+OBS = {"ok": "OOk", "err": "OErr", "foreign": "OForeign", "hang": "OHang", "none": "OHang", "panic": "OPanic"}
+
+
+FIDEV = {"ok": "FBind BOk", "refused": "FBind BRefused", "lost": "FBind (BLost true)"}
 
 
 def to_case(o):
+    if o["kind"] == "trace":
+        return "CTrace %d [%s] [%s]" % (o["n"], "; ".join(o["trace"]), "; ".join(OBS[x] for x in o["outcomes"]))
+    if o["kind"] == "fids":
+        evs, fids = [], []
+        for e in o["events"]:
+            if e["k"] in FIDEV:
+                evs.append(FIDEV[e["k"]])
+                fids.append("Some %d%%N" % e["fid"])
+            else:
+                evs.append("FClunk %d%%N %s" % (e["fid"], "true" if e["k"] == "clunk-ok" else "false"))
+        return "CFids [%s] [%s]" % ("; ".join(evs), "; ".join(fids))
     if o["kind"] == "pool":
         ops = "; ".join(("PPut %s%%N" % op["v"]) if op["put"] else "PGet" for op in (o["ops"] or []))
         res = "; ".join("None" if r is None else "Some %s%%N" % r for r in (o["results"] or []))
@@ -48,7 +62,7 @@ def to_case(o):
     return "CBatch %d [%s] [%s]" % (o["n"], "; ".join(phases), "; ".join(OBS[x] for x in o["outcomes"]))
 
 
-HEADER = ("From Coq Require Import NArith Arith List.\nFrom P9V Require Import Client.Pool Client.Mux Client.MuxCases.\nImport ListNotations.\nOpen Scope nat_scope.\n"
+HEADER = ("From Coq Require Import NArith Arith List.\nFrom P9V Require Import Client.Pool Client.Fids Client.Mux Client.MuxCases.\nImport ListNotations.\nOpen Scope nat_scope.\n"
           "Definition cases : list c10case := [\n  %s\n].\n"
           "Definition M := Eval vm_compute in mismatches cases.\nPrint M.\n"
           "Definition P := Eval vm_compute in property_failures cases.\nPrint P.\n")
@@ -91,7 +105,8 @@ def run(ctx):
                 "close, short frame) after j of k replies for all j<=k<=3 + a later call; 16/33/64 goroutines in random reply order; a failing send at each "
                 "position of a session followed by an unknown-tag frame and three more calls; distinct = distinct records",
         "correspondence": {"cases": len(obs), "mismatches": nm, "by_kind": kinds},
-        "samples": [next(o for o in obs if o["kind"] == "pool" and len(o["ops"]) > 3),
+        "samples": [next(o for o in obs if o["kind"] == "trace"), next(o for o in obs if o["kind"] == "fids"),
+                    next(o for o in obs if o["kind"] == "pool" and len(o["ops"]) > 3),
                     next(o for o in obs if o.get("sub") == "fault-unknown"),
                     next(o for o in obs if o.get("sub") == "sendfail")],
     })
